@@ -12,6 +12,7 @@ instance M replays B's prefix in-process and guards the reference itself.  C is 
 background client.  A second batch on the same BatchProxy follows in part of the runs.  At quiescence the states
 of A and B are compared directly and through fresh normal calls.
 """
+import array
 import copy
 import errno
 import json
@@ -19,6 +20,7 @@ import select as _select
 import socket as _socket
 import sys
 import threading
+import uuid
 
 from ..world import World
 from .. import sched as S
@@ -105,6 +107,18 @@ class Acc:
     def get(self):
         self.log.append(["get"])
         return self._snapshot()
+
+    @api.expose
+    def ident(self):
+        """result of a type that every serializer converts on the way (uuid -> text)"""
+        self.log.append(["ident"])
+        return uuid.UUID(int=len(self.log) * 0x10001 + 7)
+
+    @api.expose
+    def arr(self, n):
+        """result of a type that every serializer converts on the way (array -> list)"""
+        self.log.append(["arr", n])
+        return array.array("i", range(n % 7))
 
     @api.expose
     def div(self, a, b):
@@ -219,8 +233,12 @@ def _val(rng, huge, depth=0):
 
 
 def _call(rng, huge, slow=False):
-    k = rng.choices(["add", "push", "put", "get", "div", "check", "hidden", "_secret", "nosuch", "addstr", "work", "fail"],
-                    [4, 3, 3, 1, 2, 2, 0.35, 0.35, 0.25, 0.2, 10 if slow else 0.3, 2.2])[0]
+    k = rng.choices(["add", "push", "put", "get", "div", "check", "hidden", "_secret", "nosuch", "addstr", "work", "fail", "ident", "arr"],
+                    [4, 3, 3, 1, 2, 2, 0.35, 0.35, 0.25, 0.2, 10 if slow else 0.3, 2.2, 0.8, 0.6])[0]
+    if k == "ident":
+        return {"m": "ident", "a": [], "k": {}}
+    if k == "arr":
+        return {"m": "arr", "a": [rng.randint(0, 20)], "k": {}}
     if k == "fail":
         # StopIteration rarely: a batch hands it to its consumer as RuntimeError (PEP 479, known finding with a signature of its own)
         kind = "stopiter" if rng.random() < 0.06 else rng.choice(GEN_FAIL_KINDS)
@@ -255,6 +273,15 @@ def _call(rng, huge, slow=False):
         x = rng.randint(-30, -1) if rng.random() < 0.35 else rng.randint(0, 99)
         return {"m": "check", "a": [x], "k": {}}
     return {"m": k, "a": [rng.randint(0, 9)], "k": {}}
+
+
+def _wire_form(v):
+    """what every serializer makes of the two convertible result types on their way to the client"""
+    if isinstance(v, uuid.UUID):
+        return str(v)
+    if isinstance(v, array.array):
+        return v.tolist()
+    return v
 
 
 def same(a, b):
@@ -388,6 +415,19 @@ class BatchWorld(World):
             plan["impatient"] = rng.choice([0.5, 0.9, 1.3])
             plan["mode"] = "normal"
             plan["second"] = None
+        if rng.random() < 0.02:
+            # a LONG batch (size boundaries: a client or server that splits, chunks or pre-allocates shows here): cheap calls and
+            # one failing call somewhere (or none); everything else plain
+            n = rng.choice([130, 257, 501, 513, 1001, 1030])
+            calls = [{"m": "add", "a": [rng.randint(-5, 9)], "k": {}} if rng.random() < 0.8 else {"m": "push", "a": [rng.randint(0, 99)], "k": {}}
+                     for _ in range(n)]
+            if rng.random() < 0.75:
+                calls[rng.randrange(n)] = rng.choice([{"m": "check", "a": [-3], "k": {}}, {"m": "div", "a": [1, 0], "k": {}},
+                                                      {"m": "hidden", "a": [1], "k": {}}, {"m": "fail", "a": ["key", 5], "k": {}}])
+            plan.update(target="instance", calls=calls, second=None, lines=False, ser_lines=False, p_line=0.0, p_block=0.0, bg=0,
+                        concurrent=False, impatient=None, hangup=False, commtimeout=0, long=True)
+            plan["net"]["p_frag"] = 0.0
+            target = "instance"
         if target != "instance":
             plan["concurrent"] = False
             plan["start"] = rng.choice([0, 0, 0.01, 2.0])
@@ -864,7 +904,7 @@ class BatchWorld(World):
                     local = ("exc", "builtins.AttributeError", None)
                 else:
                     try:
-                        local = ("ok", getattr(model, c["m"])(*copy.deepcopy(c["a"]), **copy.deepcopy(c["k"])))
+                        local = ("ok", _wire_form(getattr(model, c["m"])(*copy.deepcopy(c["a"]), **copy.deepcopy(c["k"]))))
                     except Exception as x:  # noqa
                         local = ("exc", qualname(type(x)), list(x.args))
                 if local[0] == "ok":
